@@ -441,6 +441,12 @@ class Interp:
             r = self.contains(b, a)
             return r if isinstance(op, ast.In) else b_not(r)
         # ordering
+        if isinstance(a, SOpt):
+            a = self.unopt(a)
+        if isinstance(b, SOpt):
+            b = self.unopt(b)
+        if a is None or b is None:
+            raise PyRaise(TypeError, ('ordering with NoneType',))
         if (is_int_like(a) or isinstance(a, float)) and (is_int_like(b) or isinstance(b, float)):
             if not isinstance(a, Sym) and not isinstance(b, Sym):
                 return {ast.Lt: operator.lt, ast.LtE: operator.le, ast.Gt: operator.gt,
@@ -544,6 +550,12 @@ class Interp:
 
     def binop(self, op, a, b):
         from .strings import XStr, str_concat
+        if isinstance(a, SOpt):
+            a = self.unopt(a)
+        if isinstance(b, SOpt):
+            b = self.unopt(b)
+        if a is None or b is None:
+            raise PyRaise(TypeError, ('unsupported operand type(s): NoneType',))
         if isinstance(op, ast.Add):
             if isinstance(a, (str, XStr)) and isinstance(b, (str, XStr)):
                 if isinstance(a, str) and isinstance(b, str):
@@ -1066,6 +1078,10 @@ class Interp:
                 raise PyRaise(TypeError, ("'NoneType' object is not subscriptable",))
         if isinstance(idx, SOpt):
             idx = self.unopt(idx)
+        if isinstance(obj, dict) and isinstance(idx, Sym):
+            obj = SDict(obj)
+        if isinstance(obj, list) and isinstance(idx, Sym):
+            obj = SList(obj)
         if isinstance(obj, SList):
             i = self.norm_index(idx, len(obj.items))
             return self.select_chain(i, obj.items)
@@ -1122,6 +1138,8 @@ class Interp:
         raise PyRaise(KeyError, (name,))
 
     def dict_get(self, d, key):
+        if isinstance(key, SOpt):
+            key = self.unopt(key)
         if isinstance(key, SEnum):
             cands = [k for k in d.d if isinstance(k, key.cls)]
             missing = [m for m in key.cls if m not in d.d]
@@ -1138,6 +1156,19 @@ class Interp:
                 return acc
             except CannotMerge:
                 k = self.concretize_enum(key)
+                return d.d[k]
+        if isinstance(key, SInt):
+            cands = [k for k in d.d if isinstance(k, int) and not isinstance(k, bool)]
+            present = b_or(*[mk_bool(key.t == k) for k in cands])
+            if not self.ctx.decide(present):
+                raise PyRaise(KeyError, (key,))
+            try:
+                acc = d.d[cands[-1]]
+                for k in reversed(cands[:-1]):
+                    acc = V.merge(z3.simplify(key.t == k), d.d[k], acc)
+                return acc
+            except CannotMerge:
+                k = self.ctx.decide_among(key.t, cands)
                 return d.d[k]
         if isinstance(key, Sym):
             raise EngineError(f'dict key {key!r}')
